@@ -147,6 +147,61 @@ class RunVerdict(Target):
                 ('final-stage-completes-only-with-a-finished-leaf', Implies(st.final_stage, leaf_ok))]
 
 
+class FinishedCheckOnFailure(Target):
+    """when a component of the current stage failed, no component of that stage may be left neither submitted nor
+    finalised (it would never reach a final state: the scheduler does not submit after a failure)"""
+    prop = 'C02'
+    name = 'Controller.finishedCheck[failure]'
+    file = CT
+    qualname = 'Controller.finishedCheck'
+    trusted = ["_stopComponents kills the submitted components of the stage; _fake_finish_with_state gives a final state"]
+
+    def setup(self, c):
+        g = c.ghost
+        g['fake'] = []
+        g['stopped'] = None
+        st_failed = codes.FAILED_STATE
+        comp = _c01.make_component(c, 'stage1.bad', 1, state=st_failed)
+        others = []
+        staged = set()
+        for i in range(2):
+            o = _c01.make_component(c, 'stage1.o%d' % i, 1, state=c.enum('o%d.state' % i, STATES))
+            o.finishCalled = c.one_of('o%d.finishCalled' % i, [False, True])
+            if c.one_of('o%d.staged' % i, [False, True]):
+                staged.add(o)
+            others.append(o)
+        staged.add(comp)
+        this = Obj('controller', comp_lock=threading.RLock(), _start_sleeping=False, log=NULLLOG, comp_done=set(),
+                   _component_finished_while_sleeping=[], comp_condition_to_dowhile={}, comp_staged_in=staged,
+                   currentStage=Obj('stage', index=1), stage=Extern('stage', lambda c: Obj('stage', index=1)),
+                   cdb=None, stop_executing=False,
+                   kill_all_components=Extern('kill_all_components', lambda c, *a: None),
+                   _stopComponents=Extern('_stopComponents', lambda c, comps, *a: g.__setitem__('stopped', list(comps))),
+                   _fake_finish_with_state=Extern('_fake_finish_with_state', lambda c, o, s: g['fake'].append((o, s))),
+                   get_components_in_stage=Extern('get_components_in_stage', lambda c, i: [comp] + others),
+                   handleError=Extern('handleError', lambda c, *a: None),
+                   generate_status_report_for_nodes=Extern('generate_status_report_for_nodes', lambda c, **k: ''),
+                   _event_scheduler=Obj('event', set=Extern('Event.set', lambda c: None)))
+        return State(args=[this, 'failed', comp], this=this, others=others, staged=set(staged))
+
+    def externs(self, c, st):
+        return {'traceback.format_exc': Extern('traceback.format_exc', lambda c: '<tb>')}
+
+    def ensures(self, c, st, out):
+        if out.kind == 'raise':
+            return [('no-exception', False)]
+        g = c.ghost
+        faked = [o for (o, s) in g['fake']]
+        ok = True
+        for o in st.others:
+            pending = (o not in st.staged) and (o.finishCalled is False)
+            if pending and not any(x is o for x in faked):
+                ok = False
+        return [('no-component-of-a-failed-stage-is-left-pending', ok),
+                ('unsubmitted-components-are-shut-down-not-failed', all(s == codes.SHUTDOWN_STATE for (_, s) in g['fake'])),
+                ('submitted-components-of-the-stage-are-stopped', g['stopped'] is not None)]
+
+
 def rule(reason_success, reason_on_shutdown_list, unrecoverable, agg, any_prod_failed, nonrep_shut, rep_nonempty_all_shut, any_shut):
     """documented final-state rule of one component as a function of its own exit and its producers' final states:
     returns (finished, shutdown, failed) as formulas"""
@@ -179,5 +234,5 @@ class UniqueOutcome(Lemma):
                 ('no-unrecoverable-exit-no-failure-of-its-own', Implies(And(args[0]), Not(x)))]
 
 
-TARGETS = [TransitionToFinalState(), PostMortem(), StageStateRule(), RunVerdict()]
+TARGETS = [TransitionToFinalState(), PostMortem(), FinishedCheckOnFailure(), StageStateRule(), RunVerdict()]
 LEMMAS = [UniqueOutcome()]
